@@ -20,6 +20,8 @@ class plan_state:
     def __init__(self):
         self.state = PigeonHoledSlots()
         self.plan = []
+        # keyed by id(pkg): packages of different repos (vdb vs source) compare
+        # equal when their cpv is the same, yet both can be slotted at once.
         self.pkg_choices = {}
         self.rev_blockers = {}
         self.blockers_refcnt = RefCountingSet()
@@ -140,12 +142,12 @@ class add_op(base_op_state):
         l = plan.state.fill_slotting(self.pkg, force=self.force)
         if l and not self.force:
             return l
-        plan.pkg_choices[self.pkg] = self.choices
+        plan.pkg_choices[id(self.pkg)] = self.choices
         plan.plan.append(self)
 
     def revert(self, plan):
         plan.state.remove_slotting(self.pkg)
-        del plan.pkg_choices[self.pkg]
+        del plan.pkg_choices[id(self.pkg)]
 
 
 class add_hardref_op(base_op_state):
@@ -186,13 +188,13 @@ class remove_op(base_op_state):
     def apply(self, plan):
         plan.state.remove_slotting(self.pkg)
         plan._remove_pkg_blockers(self.choices)
-        del plan.pkg_choices[self.pkg]
+        del plan.pkg_choices[id(self.pkg)]
         plan.plan.append(self)
         plan.vdb_filter.add(self.pkg)
 
     def revert(self, plan):
         plan.state.fill_slotting(self.pkg, force=True)
-        plan.pkg_choices[self.pkg] = self.choices
+        plan.pkg_choices[id(self.pkg)] = self.choices
         plan.vdb_filter.remove(self.pkg)
 
 
@@ -210,7 +212,7 @@ class replace_op(base_op_state):
         # probably should just convert to an add...
         assert old is not None
         plan.state.remove_slotting(old)
-        old_choices = plan.pkg_choices[old]
+        old_choices = plan.pkg_choices[id(old)]
         # assertion for my own sanity...
         assert revert_point == plan.current_state
         plan._remove_pkg_blockers(old_choices)
@@ -226,8 +228,8 @@ class replace_op(base_op_state):
 
         self.old_pkg = old
         self.old_choices = old_choices
-        del plan.pkg_choices[old]
-        plan.pkg_choices[self.pkg] = self.choices
+        del plan.pkg_choices[id(old)]
+        plan.pkg_choices[id(self.pkg)] = self.choices
         plan.plan.append(self)
         plan.vdb_filter.add(old)
 
@@ -239,8 +241,8 @@ class replace_op(base_op_state):
         # force cannot be told from the limiters seen at apply time (its own
         # blockers are only re-added by the reverts that follow this one).
         plan.state.fill_slotting(self.old_pkg, force=True)
-        del plan.pkg_choices[self.pkg]
-        plan.pkg_choices[self.old_pkg] = self.old_choices
+        del plan.pkg_choices[id(self.pkg)]
+        plan.pkg_choices[id(self.old_pkg)] = self.old_choices
         plan.vdb_filter.remove(self.old_pkg)
 
     def __str__(self):
